@@ -93,7 +93,18 @@ theorem tile_name_is_archive_part (p : Str) (t : TilePath) (h : parseTilePath p 
                     split at h
                     · cases h
                     · rename_i hname
-                      cases h
+                      cases hz' : parseUint 8 zs with
+                      | none => rw [hz'] at h; simp at h
+                      | some zv =>
+                      cases hx' : parseUint 32 xs with
+                      | none => rw [hz', hx'] at h; simp at h
+                      | some xv =>
+                      cases hy' : parseUint 32 ys with
+                      | none => rw [hz', hx', hy'] at h; simp at h
+                      | some yv =>
+                      rw [hz', hx', hy'] at h
+                      simp only [Option.some.injEq] at h
+                      subst h
                       have e1 := (splitLast_spec dot body b1 ext h1).1
                       have e2 := (splitLast_spec slash b1 b2 ys h2).1
                       have e3 := (splitLast_spec slash b2 b3 xs h3).1
